@@ -148,4 +148,13 @@ theorem history (c : Cfg) (g : Glob) (hc : CfgOk c) (hm : c.failMtu = false) (hm
     (fun w st img s hw hi him hr => step_holds c g w st img s hc hm hmac hw hi him.1 him.2 hr)
     imgs w {} {} himgs hw init_inv ref_init
 
+
+/-- THE HISTORY THEOREM with the attributes changing from frame to frame (each image as long as the MTU current at that frame) -/
+theorem history_varying (own : List Nat) (items : List (Cfg × Glob × List Nat))
+    (hitems : ∀ it ∈ items, ItemOk own it ∧ it.2.2.length = it.1.mtu) (w : World) (hw : NoFault w) :
+    holdsC06 own (C05.runObsV w {} items) = true :=
+  ref_historyV own 300 holdsC06Rx (fun it => ItemOk own it ∧ it.2.2.length = it.1.mtu) (by decide) (fun _ h => h.1)
+    (fun c g w st img s hq hw hi hr => step_holds c g w st img s hq.1.1 hq.1.2.1 hq.1.2.2.1 hw hi hq.1.2.2.2.2 hq.2 hr)
+    items w {} {} hitems hw init_inv ref_init
+
 end LLTD.C06H
